@@ -159,6 +159,11 @@ def main(ck):
                     mcases.append({"kind": "mw", "prios": list(seq)})
         for _ in range(200 if ck.tier == "quick" else 3000):
             mcases.append({"kind": "mw", "prios": [rng.randint(-3, 3) for _ in range(rng.randint(0, 9))]})
+        # the same through $server->middleware(fn, prio) + a route, served by the real ServeMux
+        for c in list(mcases)[: (120 if ck.tier == "quick" else 371)]:
+            mcases.append({"kind": "mwscript", "prios": c["prios"]})
+        for _ in range(60 if ck.tier == "quick" else 1000):
+            mcases.append({"kind": "mwscript", "prios": [rng.randint(-2, 2) for _ in range(rng.randint(1, 7))]})
 
     outs, rc, err = run_impl(binary, cases + mcases)
     if len(outs) != len(cases) + len(mcases):
@@ -190,6 +195,10 @@ def main(ck):
             ck.violation(key, {"case": c, "impl_out": o, "clause": [clause_names[x] for x in cls]})
     mterms = []
     for c, o in zip(mcases, o_mw):
+        if o.get("err"):
+            ck.violation("impl-error:" + c["kind"], {"case": c, "impl_out": o, "clause": "implementation raised"})
+        if c["kind"] == "mwscript" and o.get("wh", 0) > 1:
+            ck.violation("mw:commit-twice", {"case": c, "impl_out": o, "clause": "commit_at_most_once across middleware layers"})
         es = coq_list("(%s, %d%%nat)" % (coq_z(p), i) for i, p in enumerate(c["prios"]))
         tr = coq_list("(%d%%nat, %d%%nat)" % (a, b) for a, b in (o.get("trace") or []))
         mterms.append("(%s, %s)" % (es, tr))
